@@ -437,6 +437,41 @@ def resolve_all(data):
     return bad
 
 
+def duplicates(data):
+    """definitions must be unique per symbol space: wsdl:message / portType / binding / service in the document,
+       wsdl:port inside its service, xs:schema per target namespace, types and elements inside a namespace"""
+    from lxml import etree
+    from collections import Counter
+    root = etree.fromstring(data)
+    bad = []
+
+    def dups(kind, names):
+        for n, k in Counter(names).items():
+            if k > 1:
+                bad.append((kind, n, k))
+    for kind in ('message', 'portType', 'binding', 'service'):
+        dups(kind, [e.get('name') for e in root.findall(_q(NS_WSDL, kind))])
+    for sv in root.findall(_q(NS_WSDL, 'service')):
+        dups('port', ['%s/%s' % (sv.get('name'), p.get('name')) for p in sv.findall(_q(NS_WSDL, 'port'))])
+    for pt in root.findall(_q(NS_WSDL, 'portType')):
+        pass
+    schemas = list(root.iter(_q(NS_XSD, 'schema')))
+    dups('schema', [sc.get('targetNamespace') for sc in schemas])
+    types, elems = [], []
+    for sc in schemas:
+        for ch in sc:
+            if not isinstance(ch.tag, str):
+                continue
+            ln = etree.QName(ch).localname
+            if ln in ('complexType', 'simpleType'):
+                types.append('{%s}%s' % (sc.get('targetNamespace'), ch.get('name')))
+            elif ln == 'element':
+                elems.append('{%s}%s' % (sc.get('targetNamespace'), ch.get('name')))
+    dups('type', types)
+    dups('element', elems)
+    return bad
+
+
 def imports_check(data):
     """XSD src-resolve: a QName in another namespace resolves only if that namespace is imported by the schema"""
     from lxml import etree
@@ -652,6 +687,10 @@ def boundary_specs():
                 'services': [{'name': 'S', 'methods': [
                     {'fn': 'order', 'params': [['a', U]], 'returns': I, 'throws': ['OutOfStock', 'Plain', 'Own']},
                     {'fn': 'stock', 'params': [['a', U]], 'returns': I, 'throws': ['Plain']}]}]})
+    shared = [hdr(None), {'k': 'fault', 'name': 'NotFound'}, {'k': 'complex', 'name': 'Item', 'ns': 'ns.a', 'fields': [['x', U]]}]
+    out.append({'id': 'b-shared-3svc', 'tns': 'tns.main', 'name': 'App', 'types': shared, 'services': [
+        {'name': 'S%d' % k, 'in_header': ['H'], 'out_header': ['H'], 'methods': [
+            {'fn': 'f%d' % k, 'params': [['a', {'c': 'Item'}]], 'returns': {'c': 'Item'}, 'throws': ['NotFound']}]} for k in range(3)]})
     out.append({'id': 'b-porttypes-1', 'tns': 'tns.main', 'name': 'App', 'types': [], 'services': [
         {'name': 'S', 'port_types': ['P1'], 'methods': [{'fn': 'f', 'params': [['a', U]], 'returns': U, 'port_type': 'P1'}]}]})
     out.append({'id': 'b-porttypes-2', 'tns': 'tns.main', 'name': 'App', 'types': [], 'services': [
@@ -1035,6 +1074,11 @@ def measure_facts():
     # --- add_method: namespace of a declared fault that has an explicit __namespace__
     b = build_app(_spec('b-fault-ns'))
     f['faultNs'] = {'tns.main': 'forcedTns', 'urn:c07:faultlib': 'keptDeclared'}.get(b.env['OutOfStock'].get_namespace(), 'other')
+    # --- scope of the set of message names already emitted
+    doc, _ = parse_wsdl(build_wsdl(build_app(_spec('b-shared-3svc')).app))
+    names = [m['name'] for m in doc['messages']]
+    f['messageDedup'] = 'perDocument' if len(names) == len(set(names)) else \
+        ('perService' if names.count('NotFound') == 3 and names.count('H') == 3 else 'other')
     f['staticPrefixesClean'] = not any(re.match(r'^s\d+$', p) or p == 'tns' for p in X.NSMAP)
     return f
 
@@ -1047,7 +1091,7 @@ def b_app_deps_factory():
 
 
 GOOD = {'importsIter': 'sorted', 'tierTies': 'insertion', 'headerMsgNs': 'tns', 'opPortType': 'own', 'faultNs': 'forcedTns',
-        'staticPrefixesClean': True}
+        'messageDedup': 'perDocument', 'staticPrefixesClean': True}
 WITNESS = {
     'importsIter': ('b-4ns', 'determinism', 'the order of <xs:import> follows the iteration order of a set of namespace strings: '
                     'the WSDL bytes change with PYTHONHASHSEED'),
@@ -1059,6 +1103,8 @@ WITNESS = {
                    'the binding of the method\'s own portType has an operation the portType lacks'),
     'faultNs': ('b-fault-ns', 'closed', 'a declared fault keeps its own __namespace__: wsdl:fault/@message is written with that '
                 'namespace\'s prefix while the wsdl:message is defined in the target namespace'),
+    'messageDedup': ('b-shared-3svc', 'closed', 'the set of emitted message names is reset per service: services that share a '
+                     'header or fault class produce duplicate wsdl:message definitions'),
     'staticPrefixesClean': ('b-min', 'closed', 'a static prefix collides with generated s<k> prefixes'),
 }
 
@@ -1075,10 +1121,11 @@ def facts07 : Facts07 where
   headerMsgNs := .%s
   opPortType := .%s
   faultNs := .%s
+  messageDedup := .%s
   staticPrefixesClean := %s
 
 end SpyneModel.Generated
-''' % (f['importsIter'], f['tierTies'], f['headerMsgNs'], f['opPortType'], f['faultNs'], 'true' if f['staticPrefixesClean'] else 'false')
+''' % (f['importsIter'], f['tierTies'], f['headerMsgNs'], f['opPortType'], f['faultNs'], f['messageDedup'], 'true' if f['staticPrefixesClean'] else 'false')
 
 
 # ====================================================================================== fresh processes
@@ -1186,6 +1233,7 @@ def analyse(ctx, spec, rng, with_zeep=True):
     res['unresolved'] = resolve_all(data)
     res['ops'] = ops_check(data, b.app)
     res['imports_missing'] = imports_check(data)
+    res['duplicates'] = duplicates(data)
     res['zeep'] = zeep_roundtrip(ctx, spec, data, rng) if with_zeep else []
     return res
 
@@ -1204,6 +1252,10 @@ def report_t3(ctx, r):
         ctx.hit('t3-fail:closed:' + kind)
         ctx.finding('closed:' + kind, 'QName reference %s="%s" does not resolve: %s' % (kind, val, why),
                     {'check': 'closed', 'spec': spec, 'reference': val, 'reason': why})
+    for kind, name, k in r['duplicates']:
+        ctx.hit('t3-fail:closed:duplicate-definition:' + kind)
+        ctx.finding('closed:duplicate-definition:' + kind, '%s %r is defined %d times: references to it are ambiguous' % (kind, name, k),
+                    {'check': 'closed', 'spec': spec, 'reference': name, 'reason': 'defined %d times' % k})
     for tns, val, ns in r['imports_missing']:
         ctx.hit('t3-fail:closed:import-missing')
         ctx.finding('closed:import-missing', 'schema %s refers to %s but does not import namespace %s' % (tns, val, ns),
@@ -1324,6 +1376,8 @@ def run(ctx):
                          dict((k, r['real'][k]) for k in part[:1]), dict((k, md.get(k)) for k in part[:1]))
         if mod['closed'] != (not r['unresolved']):
             ctx.disagree('closed', {'spec': r['spec']}, r['unresolved'], mod['closed'])
+        if mod.get('wfOps') and mod.get('wellDefined') != (not r['duplicates']):
+            ctx.disagree('wellDefined', {'spec': r['spec']}, r['duplicates'], mod.get('wellDefined'))
         if mod['importsCover'] != (not r['imports_missing']):
             ctx.disagree('importsCover', {'spec': r['spec']}, r['imports_missing'], mod['importsCover'])
         if mod['opsOnce'] != (not r['ops']) and mod.get('wfOps'):
@@ -1359,6 +1413,7 @@ def replay(ctx, obj):
         print('the spec is rejected by spyne'); return 0
     print('application', spec['id'], 'wsdl sha1', r.get('sha'))
     print('impl  unresolved references :', r.get('unresolved'))
+    print('impl  duplicate definitions :', r.get('duplicates'))
     print('impl  missing xs:import     :', r.get('imports_missing'))
     print('impl  operation oracle      :', r.get('ops'))
     print('impl  zeep round trip       :', r.get('zeep'))
